@@ -1,0 +1,69 @@
+//go:build verif
+// +build verif
+
+// Contracts for deductive verification of package sequence (comment-only; compiled only
+// with the build tag "verif"). Grammar: /verif/DESIGN.md, Appendix B.
+
+package sequence
+
+// ---------------------------------------------------------------- trusted surroundings
+// The backend connection and the result set do not write the sequence object (trusted frame).
+//@ trusted (*github.com/XiaoMi/Gaea/backend.Slice).GetMasterConn
+//@   params s, masterInfo
+//@   pure-call
+//@ trusted (github.com/XiaoMi/Gaea/backend.PooledConnect).Recycle
+//@   params recv
+//@   pure-call
+//@ trusted (github.com/XiaoMi/Gaea/backend.PooledConnect).UseDB
+//@   params recv, db
+//@   pure-call
+//@ trusted (github.com/XiaoMi/Gaea/backend.PooledConnect).Execute
+//@   params recv, sql, maxRows
+//@   pure-call
+//@   ensures ret1 == nil ==> ret0 != nil
+//@ trusted (*github.com/XiaoMi/Gaea/mysql.Resultset).GetString
+//@   params r, row, column
+//@   pure-call
+// strconv.ParseInt(s, 10, 64): uninterpreted parse predicate and value
+//@ pure seqParseOK(s string) bool
+//@ pure seqParseVal(s string) int64
+//@ trusted strconv.ParseInt
+//@   params s, base, bitSize
+//@   pure-call
+//@   ensures (ret1 == nil) <==> seqParseOK(s)
+//@   ensures ret1 == nil ==> ret0 == seqParseVal(s)
+//@ trusted strings.Split
+//@   params s, sep
+//@   pure-call
+//@   ensures len(ret0) >= 1
+
+// ---------------------------------------------------------------- C34
+// ghost record of the last reply row "curr,incr" as it was parsed
+//@ ghost replyCurrOK bool
+//@ ghost replyIncrOK bool
+//@ ghost replyCurr int64
+//@ ghost replyIncr int64
+
+//@ property C34: (*MySQLSequence).getSeqFromDB, (*MySQLSequence).NextSeq
+
+// A fetch succeeds only if both fields of the reply parse and the increment is positive; the cached block is
+// then (curr, curr+incr]. DB model (assumed, listed): grants are increasing, curr >= every previously granted max.
+//@ func (*MySQLSequence).getSeqFromDB
+//@   requires s != nil && s.slice != nil
+//@   assume forall(x string, seqParseVal(x) >= -(1<<61) && seqParseVal(x) <= 1<<61)
+//@   assigns s.curr, s.max, replyCurrOK, replyIncrOK, replyCurr, replyIncr
+//@   ensures case bounded:  ret0 == nil ==> s.max <= 1<<62
+//@   ghost-update after call strconv.ParseInt#0: replyCurrOK = (ret1 == nil), replyCurr = ret0
+//@   ghost-update after call strconv.ParseInt#1: replyIncrOK = (ret1 == nil), replyIncr = ret0
+//@   ensures case parsed:   ret0 == nil ==> replyCurrOK && replyIncrOK
+//@   ensures case positive: ret0 == nil ==> replyIncr > 0
+//@   ensures case block:    ret0 == nil ==> s.curr == replyCurr && s.max == replyCurr + replyIncr
+//@   ensures case failed:   ret0 != nil ==> s.curr == old(s.curr) && s.max == old(s.max)
+
+// Values handed out by one object are strictly increasing and lie inside the cached block.
+//@ func (*MySQLSequence).NextSeq
+//@   requires s != nil && s.slice != nil && s.lock != nil && s.curr <= s.max && s.max <= 1<<62
+//@   ensures case value:     ret1 == nil ==> ret0 == s.curr && s.curr <= s.max
+//@   ensures case increasing: ret1 == nil && old(s.curr) < old(s.max) ==> ret0 == old(s.curr) + 1
+//@   ensures case refetch:    ret1 == nil && old(s.curr) >= old(s.max) ==> ret0 == replyCurr + 1 && replyCurrOK && replyIncrOK && replyIncr > 0
+//@   ensures case invariant:  s.curr <= s.max || ret1 != nil
